@@ -2,6 +2,7 @@ package main
 
 import (
 	"fmt"
+	verifshim "github.com/aquilax/hranoprovod-cli/v3/verifshim"
 	"strings"
 
 	shared "github.com/aquilax/hranoprovod-cli/v3"
@@ -262,6 +263,56 @@ func checkC11(w *Worker) {
 		}
 		c11Quantities(book, x.Choose(3, "input:quantities"))
 		c11Body(x, book, n, api, "acyclic")
+	})
+	// call sequences: a program that resolves several books in one process. Whatever an earlier call did - succeed, hit the
+	// limit, meet a cycle - the outcome for the next book is the outcome it has on its own (sorted visiting order both times)
+	polluters := []struct {
+		book absBook
+		n    int
+	}{
+		{absBook{{"r0", []absIng{{"r1", 1}}}, {"r1", []absIng{{"r0", 1}}}}, 10},                                       // cycle
+		{absBook{{"r0", []absIng{{"r1", 1}}}, {"r1", []absIng{{"r2", 1}}}, {"r2", []absIng{{"x", 1}}}}, 2},            // chain over the limit
+		{absBook{{"r0", []absIng{{"x", 1}}}}, 1},                                                                      // one reference, limit 1
+		{absBook{{"r0", []absIng{{"r1", 3}, {"x", 1}}}, {"r1", []absIng{{"r2", 2}}}, {"r2", []absIng{{"x", 7}}}}, 10}, // accepted
+		{absBook{{"r2", []absIng{{"r2", 1}}}, {"r1", []absIng{{"x", 1}}}}, 3},                                         // self-reference
+	}
+	w.Explore("call-sequences", ExploreOpts{ShardDepth: 3}, func(x *Exec) {
+		pi := x.Choose(len(polluters), "event:earlier-call")
+		api := x.Choose(2, "input:api")
+		book := absBook{}
+		for i := 0; i < 3; i++ {
+			mask := x.Choose(16, "input:ingredients")
+			r := absRecipe{Name: []string{"r0", "r1", "r2"}[i]}
+			for j, nm := range []string{"r0", "r1", "r2", "x"} {
+				if mask&(1<<uint(j)) != 0 {
+					r.Ings = append(r.Ings, absIng{nm, 1})
+				}
+			}
+			book = append(book, r)
+		}
+		n := 1 + x.Choose(4, "input:maxdepth")
+		outcome := func(b absBook, n int) (res string) {
+			defer func() {
+				if r := recover(); r != nil {
+					rethrowSentinel(r)
+					res = fmt.Sprintf("PANIC: %v", r)
+				}
+			}()
+			if err := resolveVia(api, b.toDB(), n); err != nil {
+				return err.Error()
+			}
+			return "ok"
+		}
+		alone := outcome(book, n)
+		verifshim.ResetPackageState()
+		first := outcome(polluters[pi].book, polluters[pi].n)
+		after := outcome(book, n)
+		x.Obs(alone, first)
+		x.Case(fmt.Sprint(pi, api, book, n), true)
+		if alone != after {
+			x.Violate("C11|call-sequence|outcome-depends-on-an-earlier-call", fmt.Sprintf("book {%s} N=%d via %s: %q on its own, %q right after resolving {%s} with N=%d (which gave %q) in the same process",
+				book, n, apiNames[api], alone, after, polluters[pi].book, polluters[pi].n, first), map[string]interface{}{"book": book.String(), "N": n, "earlier_book": polluters[pi].book.String(), "earlier_N": polluters[pi].n})
+		}
 	})
 	// the limit as the user gives it: --maxdepth, HR_MAXDEPTH or the configuration file, through the real commands
 	w.appInit()
